@@ -708,9 +708,6 @@ def run(ck):
                      {"material_property": m.name, "symbol": name, "emitted": val, "mfront_file": m.text})
 
     # ---- (ii) run level
-    harness = ck.cxx("c45h", ["C45/harness.cxx", vlib.REPO + "/src/System/ExternalLibraryManager.cxx"],
-                     includes=[vlib.REPO + "/mfront/include"], defines=DEFS, flags=("-w",), opt="-O0",
-                     libs=ck.libflags("TFELSystem", "TFELException") + ["-ldl"])
     jobs = []
     for b in progs[:nb_lib]:
         jobs.append(("libC45_%s.so" % b.name, [os.path.join(gendir, "src", "%s-generic.cxx" % b.f), os.path.join(gendir, "src", "%s.cxx" % b.f)]))
@@ -719,6 +716,9 @@ def run(ck):
     jobs.append(("libC45_MP.so", [tu]))
     libs = {}
     with ThreadPoolExecutor(max_workers=2) as ex:
+        hfut = ex.submit(ck.cxx, "c45h", ["C45/harness.cxx", vlib.REPO + "/src/System/ExternalLibraryManager.cxx"],
+                         includes=[vlib.REPO + "/mfront/include"], defines=DEFS, flags=("-w",), opt="-O0",
+                         libs=ck.libflags("TFELSystem", "TFELException") + ["-ldl"])
         futs = {n: ex.submit(build_library, ck, n, s, gendir) for n, s in jobs}
         for n, f in futs.items():
             try:
@@ -726,6 +726,7 @@ def run(ck):
             except vlib.BuildError as e:
                 note("%s:generated-code-does-not-compile:%s" % (SYM_SITE, "mp" if n.endswith("MP.so") else "behaviour"), "viol",
                      "the generated sources of %s do not compile" % n, {"library": n, "compiler_log": e.log[-2500:]})
+    harness = hfut.result()
     lines, expect, meta = [], [], []
 
     def ask(lib, f, h, query, exp, what, rep, var=None, persistent=False):
@@ -1030,9 +1031,10 @@ def mfront_query_behaviour(ck, b, gendir, note, hist, stats):
             if rc != 0 or got != exp:
                 note("mfront-query:%s" % opt.strip("-"), "viol", "mfront-query %s %s on %s prints %s, declared %s" % (" ".join(base), opt, fname, got, exp),
                      {"behaviour": b.name, "hypothesis": h, "mfront_file": b.text, "stdout": lines, "stderr": err[-500:], "declared": exp})
+        items = []
         for key in ("mps", "isvs", "esvs", "pars"):
             for v in blk[key]:
-                opts = base + ["--has-bounds=" + v.ext, "--has-physical-bounds=" + v.ext]
+                opts = ["--has-bounds=" + v.ext, "--has-physical-bounds=" + v.ext]
                 exp = ["true" if v.bounds else "false", "true" if v.eff_phys() else "false"]
                 if v.bounds:
                     opts += ["--bounds-type=" + v.ext, "--bounds-value=" + v.ext]
@@ -1043,25 +1045,38 @@ def mfront_query_behaviour(ck, b, gendir, note, hist, stats):
                 if key == "pars" and v.size == 1 and not v.name.endswith("_time_step_scaling_factor"):
                     opts += ["--parameter-default-value=" + v.ext]
                     exp += [("num", v.dflt[0])]
-                rc, lines, err = mq(ck, gendir, fname, opts)
-                stats["mq"] = stats.get("mq", 0) + len(exp)
-                bad = rc != 0 or len(lines) != len(exp)
-                which = None
-                if not bad:
-                    for o, l, e in zip(opts[len(base):], lines, exp):
-                        ok = compare_range(l, e) if isinstance(e, Bnd) else (num_equal(l, e[1]) if isinstance(e, tuple) else l.strip() == e)
-                        hist["mfront-query:item"] = hist.get("mfront-query:item", 0) + 1
-                        if not ok:
-                            bad, which = True, (o, l, e.text() if isinstance(e, Bnd) else (e[1] if isinstance(e, tuple) else e))
-                            break
-                if bad:
-                    cls = which[0].split("=")[0].strip("-") if which else "failure"
-                    if which and cls in ("bounds-value", "physical-bounds-value", "parameter-default-value") and close_to(which[1], which[2]):
-                        cls = "display-precision"
-                    note("mfront-query/src/QueryUtilities.cxx:display-precision" if cls == "display-precision" else "mfront-query:%s" % cls, "viol",
-                         "mfront-query %s on %s prints `%s`, declared `%s`" % (which[0], fname, which[1], which[2]) if which else
-                         "mfront-query %s on %s fails (exit %s)" % (" ".join(opts), fname, rc),
-                         {"behaviour": b.name, "hypothesis": h, "variable": v.ext, "mfront_file": b.text, "stdout": lines, "stderr": err[-500:]})
+                items.append((v, opts, exp))
+
+        def evaluate(v, opts, exp, rc, lines, err):
+            stats["mq"] = stats.get("mq", 0) + len(exp)
+            bad = rc != 0 or len(lines) != len(exp)
+            which = None
+            if not bad:
+                for o, l, e in zip(opts, lines, exp):
+                    ok = compare_range(l, e) if isinstance(e, Bnd) else (num_equal(l, e[1]) if isinstance(e, tuple) else l.strip() == e)
+                    hist["mfront-query:item"] = hist.get("mfront-query:item", 0) + 1
+                    if not ok:
+                        bad, which = True, (o, l, e.text() if isinstance(e, Bnd) else (e[1] if isinstance(e, tuple) else e))
+                        break
+            if bad:
+                cls = which[0].split("=")[0].strip("-") if which else "failure"
+                if which and cls in ("bounds-value", "physical-bounds-value", "parameter-default-value") and close_to(which[1], which[2]):
+                    cls = "display-precision"
+                note("mfront-query/src/QueryUtilities.cxx:display-precision" if cls == "display-precision" else "mfront-query:%s" % cls, "viol",
+                     "mfront-query %s on %s prints `%s`, declared `%s`" % (which[0], fname, which[1], which[2]) if which else
+                     "mfront-query %s on %s fails (exit %s)" % (" ".join(opts), fname, rc),
+                     {"behaviour": b.name, "hypothesis": h, "variable": v.ext, "mfront_file": b.text, "stdout": lines, "stderr": err[-500:]})
+        # one process for all the questions of this hypothesis (answers come in the order of the options); one per variable when that fails
+        rc, lines, err = mq(ck, gendir, fname, base + [o for (_, opts, _) in items for o in opts])
+        if rc == 0 and len(lines) == sum(len(e) for (_, _, e) in items):
+            k = 0
+            for (v, opts, exp) in items:
+                evaluate(v, opts, exp, 0, lines[k:k + len(exp)], err)
+                k += len(exp)
+        else:
+            for (v, opts, exp) in items:
+                rc, lines, err = mq(ck, gendir, fname, base + opts)
+                evaluate(v, opts, exp, rc, lines, err)
 
 
 def mfront_query_matprop(ck, m, gendir, note, hist, stats):
